@@ -532,9 +532,8 @@ fn expr_class(i: &Instruction) -> Option<&'static str> {
         dd |= t.0;
         cut |= t.1 && t.2;
     }
-    if dd {
-        Some("prefix-negative-literal")
-    } else if cut {
+    let _ = dd; // `--1` is repaired (/repo 1e769e0): no longer a class
+    if cut {
         Some("negative-literal-signed-zero")
     } else {
         None
@@ -552,13 +551,6 @@ fn known_class0(i: &Instruction) -> Option<&'static str> {
         false
     }
     match i {
-        Instruction::Delay(d) => {
-            let plain = matches!(&d.duration, Expression::Number(c) if c.im == 0.0 && c.re >= 0.0 && !c.re.is_sign_negative());
-            if d.frame_names.is_empty() && !plain {
-                return Some("pending-fix-delay-duration");
-            }
-            None
-        }
         Instruction::Call(c) => {
             let bad = c.arguments.iter().any(|a| match a {
                 UnresolvedCallArgument::Immediate(v) => v.re < 0.0 || v.im < 0.0 || (v.re != 0.0 && v.im != 0.0) || v.re.is_sign_negative() || v.im.is_sign_negative(),
@@ -579,9 +571,6 @@ fn known_class0(i: &Instruction) -> Option<&'static str> {
             }
         }
         Instruction::CalibrationDefinition(d) => {
-            if !d.identifier.modifiers.is_empty() {
-                return Some("pending-fix-defcal-modifiers");
-            }
             d.instructions.iter().find_map(known_class0)
         }
         Instruction::MeasureCalibrationDefinition(d) => d.instructions.iter().find_map(known_class0),
